@@ -149,6 +149,11 @@ def run(R):
         prep(vd)
         R.gate_reject("C03.evm.valid", vd, RetSink("Ok"), [FieldBoolGuard("isValid", True, "every PaymentVerificationResult.isValid")],
                       descr="verify_data_payment is Ok only if the contract reports every submitted quote as paid")
+        R.gate("C03.evm.valid.every", vd, RetSink("Ok"),
+               [[ForallGuard(None, None, None, "every verification result returned by the contract has isValid",
+                             check=FieldBoolGuard("isValid", True, "result.isValid"),
+                             source_calls=["*PaymentVaultHandler<T, P, N>::verify_payment", "*::verify_payment"])]],
+               descr="Ok only after *every* result of the contract call was tested for isValid (no result is skipped)")
         R.gate("C03.evm.call", vd, RetSink("Ok"), [[CallGuard(["*PaymentVaultHandler<T, P, N>::verify_payment", "*::verify_payment"], ("Ok",), "contract call verify_payment is Ok")]],
                descr="verify_data_payment is Ok only if the contract call succeeded")
         # everything in the proof is submitted, and every result is inspected
